@@ -54,9 +54,10 @@ impl StyleArgs {
 pub fn format_all(directory: &Option<PathBuf>, args: &CliArguments) -> Result<FormatStatus> {
     let mut status = FormatStatus::Unchanged;
 
-    let directory = directory
-        .clone()
-        .unwrap_or_else(|| std::env::current_dir().unwrap());
+    let directory = match directory {
+        Some(directory) => directory.clone(),
+        None => std::env::current_dir().context("failed to get the current directory")?,
+    };
 
     #[derive(Default)]
     struct Summary {
